@@ -265,7 +265,7 @@ static int proc_fn(KSI_TreeNode *in, void *c, KSI_TreeNode **out) {
 static const char *tclass(const Tree *t, int refused) {
 	static char b[64]; int i, md = 0;
 	for (i = 0; i < t->n; i++) md |= t->lv[i].kind;
-	snprintf(b, sizeof b, "%s%s%s", md ? "with-metadata" : "hashes-only", t->proc ? "+processor" : "", refused ? ":after-refusal" : "");
+	snprintf(b, sizeof b, "%s%s", md ? "with-metadata" : "hashes-only", refused ? ":after-refusal" : "");     /* processor on/off: see the replay spec (p1) */
 	return b;
 }
 #define VIOL(t, refused, what, ...) do { char key_[160]; char *sp_ = tree_spec(t); snprintf(key_, sizeof key_, "treebuilder:%s:%s", what, tclass(t, refused)); vh_viol(key_, sp_, __VA_ARGS__); free(sp_); } while (0)
